@@ -41,6 +41,7 @@ type In struct {
 	Extra      string `json:",omitempty"` // "" | "gpgorigin-end" | "underscore-end" | "underscore-after-binary" | "unrelated-first"
 	Drop       string `json:",omitempty"` // "" | "debian-binary" | "control" | "data"
 	Dup        string `json:",omitempty"` // "" | "control-end" | "control-adjacent" | "data-end" | "data-adjacent" | "both-end"
+	ExtraCount int    `json:",omitempty"` // this many further members _x001, _x002, ... at the end
 	SecondName string `json:",omitempty"` // a further member with this name (see secondMember) ...
 	SecondPos  int    `json:",omitempty"` // ... inserted at this position of the member list
 	Verdict    string // "must-load" | "must-reject" | "lenient" (may be rejected; if it loads it must be faithful) | "unconstrained" (only determinism)
@@ -279,6 +280,9 @@ func assemble(c *gen.DebCompressor, in *In) ([]gen.ArMember, error) {
 		if dupDat != nil {
 			out = append(out, *dupDat)
 		}
+	}
+	for i := 1; i <= in.ExtraCount; i++ {
+		out = append(out, gen.ArMember{Name: fmt.Sprintf("_x%03d", i), Data: []byte(fmt.Sprintf("member %d\n", i))})
 	}
 	if in.SecondName != "" {
 		sm, err := secondMember(c, in)
